@@ -36,7 +36,7 @@ def main():
         shutil.copy(os.path.join(src, f"patch{k}.diff"), os.path.join(sdir, "patch.diff"))
         demo_src = open(os.path.join(src, f"demo{k}.py")).read().splitlines(True)
         # demos written in a scratch worktree may pin that path; the pin is not part of the demonstration
-        demo_src = [l for l in demo_src if not ("/tmp/wt/" in l and ("assert" in l or "sys.path" in l))]
+        demo_src = [l for l in demo_src if not (("/tmp/wt/" in l and ("assert" in l or "sys.path" in l)) or ("assert" in l and "__file__" in l))]
         open(os.path.join(sdir, "demo.py"), "w").writelines(demo_src)
         meta = json.load(open(os.path.join(src, f"meta{k}.json")))
         json.dump(meta, open(os.path.join(sdir, "meta.json"), "w"), indent=1)
